@@ -285,6 +285,9 @@ func hxIsNumLit(e ast.Expr) bool {
 // hxNormText: canonical text of a condition.
 func (x *hxExtractor) normText(e ast.Expr) string {
 	e = hxUnparen(e)
+	if x.isViewRead(e) {
+		return "executor.isView" // whatever the receiver is called
+	}
 	wrap := func(sub ast.Expr) string {
 		t := x.normText(sub)
 		switch s := hxUnparen(sub).(type) {
